@@ -360,6 +360,307 @@ M.loop('exactly_lib.test_suite.enumeration:DepthFirstEnumerator.apply', 0,
        and forall_range(0, len(ret_val), lambda k: ret_val[k].ident == suite.po(k)),
        modifies=dict(ret_val=ListOf(SUITE), sub_suite='local'))
 
+# ------------------------------------------------------------------------------ running the suites
+# The environment (the reporter of the run, the test-case processors) is opaque; a ghost MONITOR in
+# `ghost` follows the protocol of the calls made on it.  Outer monitor (the run): root_phase
+# (0 not begun, 1 begun, 2 ended, 3 final result reported), suites_done, suites_ok.  Inner monitor (the
+# suite in progress, reset by new_sub_suite_reporter): cases (the listed cases), k (cases completed),
+# phase (0 idle, 1 after progress.case_begin, 2 after processor.apply, 3 after progress.case_end), ok;
+# cases_ok accumulates the verdict of the completed suites at suite_end.
+from pyvc.interp import PyRaise, ArbitraryException
+from exactly_lib.test_suite import processing
+from exactly_lib.processing import processors as case_processing
+
+P_PROC = 'exactly_lib.test_suite.processing'
+
+
+def _mon_root_begin(ghost):
+    ghost['suites_ok'] = ghost['suites_ok'] and ghost['root_phase'] == 0
+    ghost['root_phase'] = 1
+
+
+def _mon_root_end(ghost):
+    ghost['suites_ok'] = ghost['suites_ok'] and ghost['root_phase'] == 1 \
+                         and ghost['suites_done'] == len(ghost['suites'])
+    ghost['root_phase'] = 2
+
+
+def _mon_final(ghost):
+    ghost['suites_ok'] = ghost['suites_ok'] and ghost['root_phase'] == 2
+    ghost['root_phase'] = 3
+
+
+def _mon_new_sub_suite(ghost, suite, sub_reporter):
+    n = ghost['suites_done']
+    ghost['suites_ok'] = ghost['suites_ok'] and ghost['root_phase'] == 1 and 0 <= n and n < len(ghost['suites']) \
+                         and suite.ident == ghost['suites'][n].ident
+    ghost['suites_done'] = n + 1
+    # the inner monitor now follows this suite
+    ghost['cur_suite'] = suite
+    ghost['cur_sub'] = sub_reporter
+    ghost['cases'] = suite.test_cases
+    ghost['k'] = 0
+    ghost['phase'] = 0
+    ghost['ok'] = True
+    ghost['begun'] = False
+    ghost['ended'] = False
+    ghost['cur_processor'] = None
+
+
+def _mon_suite_begin(ghost, progress):
+    ghost['ok'] = ghost['ok'] and progress is ghost['cur_sub'].progress_reporter \
+                  and (not ghost['begun']) and ghost['k'] == 0 and ghost['phase'] == 0
+    ghost['begun'] = True
+
+
+def _at_case(ghost, case, phase):
+    k = ghost['k']
+    return ghost['begun'] and (not ghost['ended']) and ghost['phase'] == phase and 0 <= k and k < len(ghost['cases']) \
+        and case.ident == ghost['cases'][k].ident
+
+
+def _mon_case_begin(ghost, progress, case):
+    ghost['ok'] = ghost['ok'] and progress is ghost['cur_sub'].progress_reporter and _at_case(ghost, case, 0)
+    ghost['phase'] = 1
+
+
+def _mon_new_processor(ghost, configuration, processor):
+    ghost['cur_processor'] = processor
+    ghost['cur_processor_setup'] = configuration.default_handling_setup
+
+
+def _mon_apply(ghost, processor, case):
+    # the processor of this suite: made from the handling setup of the suite that lists the case
+    ghost['ok'] = ghost['ok'] and processor is ghost['cur_processor'] \
+                  and ghost['cur_processor_setup'] is ghost['cur_suite'].test_case_handling_setup \
+                  and _at_case(ghost, case, 1)
+    ghost['phase'] = 2
+
+
+def _is_the_outcome(ghost, info):
+    """the reported result is the one the processor returned, or INTERNAL_ERROR if it raised"""
+    if ghost['raised']:
+        return info.result.status is tcp.Status.INTERNAL_ERROR
+    return info.result is ghost['last_result']
+
+
+def _mon_progress_case_end(ghost, progress, case, info):
+    ghost['ok'] = ghost['ok'] and progress is ghost['cur_sub'].progress_reporter and _at_case(ghost, case, 2) \
+                  and _is_the_outcome(ghost, info)
+    ghost['phase'] = 3
+
+
+def _mon_sub_case_end(ghost, sub_reporter, case, info):
+    ghost['ok'] = ghost['ok'] and sub_reporter is ghost['cur_sub'] and _at_case(ghost, case, 3) \
+                  and _is_the_outcome(ghost, info)
+    ghost['phase'] = 0
+    ghost['k'] = ghost['k'] + 1
+
+
+def _mon_suite_end(ghost, progress):
+    ghost['cases_ok'] = ghost['cases_ok'] and ghost['ok'] and progress is ghost['cur_sub'].progress_reporter \
+                        and ghost['begun'] and (not ghost['ended']) and ghost['phase'] == 0 \
+                        and ghost['k'] == len(ghost['cases'])
+    ghost['ended'] = True
+
+
+def _monitored(fn, with_self=True):
+    def model(interp, self, args, kwargs):
+        interp.call(fn, [interp.st.ghost] + ([self] if with_self else []) + list(args), kwargs)
+        return None
+
+    return Method(model=model)
+
+
+class ProgressI(Interface):
+    target_class = reporting.SubSuiteProgressReporter
+    methods = {
+        'suite_begin': _monitored(_mon_suite_begin),
+        'suite_end': _monitored(_mon_suite_end),
+        'case_begin': _monitored(_mon_case_begin),
+        'case_end': _monitored(_mon_progress_case_end),
+    }
+
+
+class SubSuiteReporterI(Interface):
+    """reporting.SubSuiteReporter as the suite executor uses it.  The real class records every case_end
+    (`SubSuiteReporter.case_end` below): result() is the list of the reported (case, info), in order."""
+    target_class = reporting.SubSuiteReporter
+    attrs = {'progress_reporter': Iface(ProgressI)}
+    methods = {'case_end': _monitored(_mon_sub_case_end)}
+
+
+def _new_sub_suite_reporter(interp, self, args, kwargs):
+    (suite,) = args
+    sub = new_opaque(interp, SubSuiteReporterI, 'sub_suite_reporter')
+    interp.call(_mon_new_sub_suite, [interp.st.ghost, suite, sub], {})
+    return sub
+
+
+def _report_final_results(interp, self, args, kwargs):
+    interp.call(_mon_final, [interp.st.ghost], {})
+    r = Int.make(interp, 'final_exit_code')
+    interp.st.ghost['final'] = r
+    return r
+
+
+class RootReporterI(Interface):
+    target_class = reporting.RootSuiteReporter
+    methods = {
+        'root_suite_begin': _monitored(_mon_root_begin, with_self=False),
+        'root_suite_end': _monitored(_mon_root_end, with_self=False),
+        'new_sub_suite_reporter': Method(model=_new_sub_suite_reporter),
+        'report_final_results': Method(model=_report_final_results),
+    }
+
+
+def _apply(interp, self, args, kwargs):
+    """A test-case processor: returns a (well formed) Result or raises any Exception."""
+    (case,) = args
+    st = interp.st
+    interp.call(_mon_apply, [st.ghost, self, case], {})
+    st.emit('apply', self, case)
+    if st.choose(2) == 1:
+        st.ghost['raised'] = True
+        raise PyRaise(ArbitraryException('raised by the test-case processor'))
+    r = RESULT.make(interp, 'apply()')
+    st.ghost['raised'] = False
+    st.ghost['last_result'] = r
+    return r
+
+
+class ProcessorI(Interface):
+    target_class = tcp.Processor
+    methods = {'apply': Method(model=_apply)}
+
+
+M.assume('a test_case_processing.Processor returns a well formed Result or raises an Exception '
+         '(ProcessorFromAccessorAndExecutor.apply: C18 proves it never raises and builds its result with the '
+         'three constructors)')
+
+
+def _new_processor(interp, self, args, kwargs):
+    (configuration,) = args
+    p = new_opaque(interp, ProcessorI, 'case_processor')
+    interp.call(_mon_new_processor, [interp.st.ghost, configuration, p], {})
+    return p
+
+
+class ProcessorConstructorI(Interface):
+    methods = {'__call__': Method(model=_new_processor)}
+
+
+class DefaultConfI(Interface):
+    target_class = case_processing.Configuration
+    attrs = {'test_case_definition': Any_, 'os_services': Any_, 'mem_buff_size': Any_, 'is_keep_sandbox': Any_,
+             'sandbox_root_dir_resolver': Any_, 'default_handling_setup': Any_}
+
+
+EXECUTOR = Inst(processing.SuitesExecutor, _reporter=Iface(RootReporterI),
+                _default_case_configuration=Iface(DefaultConfI),
+                _test_case_processor_constructor=Iface(ProcessorConstructorI))
+
+_INNER = {'ghost:cur_suite': Any_, 'ghost:cur_sub': Any_, 'ghost:cases': ListOf(CASE), 'ghost:k': Int,
+          'ghost:phase': Int, 'ghost:ok': Bool, 'ghost:begun': Bool, 'ghost:ended': Bool, 'ghost:cases_ok': Bool,
+          'ghost:raised': Bool, 'ghost:last_result': Any_, 'ghost:cur_processor': Any_,
+          'ghost:cur_processor_setup': Any_}
+_OUTER = {'ghost:root_phase': Int, 'ghost:suites_done': Int, 'ghost:suites_ok': Bool, 'ghost:final': Int}
+
+
+def _set_suites(interp, args, ghosts):
+    if 'suits_in_processing_order' in args:
+        interp.st.ghost['suites'] = args['suits_in_processing_order']
+    else:
+        interp.st.ghost['suites'] = ListOf(SUITE).make(interp, 'ghost.suites')
+
+
+M.contract(P_PROC + ':_process_case', props=('C16', 'C18'),
+           params=dict(case_processor=Iface(ProcessorI), case=CASE), inline=True,
+           modifies=dict(_INNER),
+           ensures={
+               'the processor is applied exactly once, to this case': lambda case_processor, case, trace:
+               [e for e in trace if e[0] == 'apply'] == [('apply', case_processor, case)],
+               'its result, or INTERNAL_ERROR if it raised': lambda ret, ghost:
+               (ret.status is tcp.Status.INTERNAL_ERROR) if ghost['raised'] else (ret is ghost['last_result']),
+               'well formed': lambda ret: result_is_well_formed(ret),
+           },
+           raises_only=())
+
+M.contract(P_PROC + ':_process_and_time', params=dict(case_processor=Iface(ProcessorI), case=CASE), inline=True,
+           modifies=dict(_INNER),
+           ensures={
+               'the processor is applied exactly once, to this case': lambda case_processor, case, trace:
+               [e for e in trace if e[0] == 'apply'] == [('apply', case_processor, case)],
+               'info carries its result, or INTERNAL_ERROR if it raised': lambda ret, ghost:
+               (ret.result.status is tcp.Status.INTERNAL_ERROR) if ghost['raised']
+               else (ret.result is ghost['last_result']),
+           },
+           raises_only=())
+
+M.contract(P_PROC + ':SuitesExecutor._configuration_for_cases_in_suite', params=dict(self=EXECUTOR, suite=SUITE),
+           inline=True,
+           ensures={
+               'the handling setup of the suite that lists the cases; the rest from the default configuration':
+                   lambda self, suite, ret:
+                   ret.default_handling_setup is suite.test_case_handling_setup
+                   and ret.test_case_definition is self._default_case_configuration.test_case_definition
+                   and ret.os_services is self._default_case_configuration.os_services
+                   and ret.mem_buff_size is self._default_case_configuration.mem_buff_size
+                   and ret.is_keep_sandbox is self._default_case_configuration.is_keep_sandbox
+                   and ret.sandbox_root_dir_resolver is self._default_case_configuration.sandbox_root_dir_resolver,
+           }, raises_only=())
+
+M.contract(P_PROC + ':SuitesExecutor._process_single_sub_suite', params=dict(self=EXECUTOR, suite=SUITE),
+           setup=_set_suites, modifies=dict(_INNER, **_OUTER), old=lambda ghost: dict(ghost),
+           ensures={
+               'one sub-suite reporter, for this suite (outer protocol)': lambda suite, ghost, old:
+               ghost['suites_done'] == old['suites_done'] + 1 and ghost['root_phase'] == old['root_phase']
+               and ghost['suites_ok'] == (old['suites_ok'] and old['root_phase'] == 1
+                                          and 0 <= old['suites_done'] and old['suites_done'] < len(ghost['suites'])
+                                          and suite.ident == ghost['suites'][old['suites_done']].ident),
+               'every listed case exactly once, in listing order: begin, process, end, record': lambda ghost, old:
+               ghost['ended'] and ghost['cases_ok'] == old['cases_ok'],
+           },
+           raises_only=())
+
+M.loop(P_PROC + ':SuitesExecutor._process_single_sub_suite', 0,
+       invariant=lambda _i, ghost, suite, sub_suite_reporter, case_processor:
+       ghost['ok'] and ghost['phase'] == 0 and ghost['k'] == _i and ghost['begun'] and not ghost['ended']
+       and ghost['cur_sub'] is sub_suite_reporter and ghost['cases'] is suite.test_cases
+       and ghost['cur_suite'] is suite and ghost['cur_processor'] is case_processor
+       and ghost['cur_processor_setup'] is suite.test_case_handling_setup,
+       modifies={'ghost:k': Int, 'ghost:phase': Int, 'ghost:ok': Bool, 'ghost:raised': Bool,
+                 'ghost:last_result': Any_, 'case': 'local', 'processing_info': 'local'})
+
+M.contract(P_PROC + ':SuitesExecutor.execute_and_report',
+           params=dict(self=EXECUTOR, suits_in_processing_order=ListOf(SUITE)), returns=Int,
+           setup=_set_suites, modifies=dict(_INNER, **_OUTER),
+           requires=lambda ghost: ghost['root_phase'] == 0 and ghost['suites_done'] == 0 and ghost['suites_ok']
+                                  and ghost['cases_ok'],
+           ensures={
+               'begin, every suite once in the given order, end, final result': lambda ghost:
+               ghost['suites_ok'] and ghost['root_phase'] == 3,
+               'in every suite every listed case exactly once, in listing order': lambda ghost: ghost['cases_ok'],
+               'exit code is the reporter\'s final result': lambda ghost, ret: ret == ghost['final'],
+           },
+           raises_only=())
+
+M.loop(P_PROC + ':SuitesExecutor.execute_and_report', 0,
+       invariant=lambda _i, ghost:
+       ghost['suites_ok'] and ghost['cases_ok'] and ghost['root_phase'] == 1 and ghost['suites_done'] == _i,
+       modifies=dict({k: v for k, v in list(_INNER.items()) + list(_OUTER.items()) if k != 'ghost:final'},
+                     suite='local'))
+
+# the real SubSuiteReporter records what it is told, in order (what SubSuiteReporterI.case_end stands for)
+M.contract('exactly_lib.test_suite.reporting:SubSuiteReporter.case_end',
+           params=dict(self=SUB_REPORTER, case=CASE, execution_info=INFO), inline=True,
+           old=lambda self: len(self._result),
+           ensures={
+               'appends (case, info)': lambda self, case, execution_info, old:
+               len(self._result) == old + 1 and self._result[old][0] is case
+               and self._result[old][1] is execution_info and self.result() is self._result,
+           }, raises_only=())
+
 # ------------------------------------------------------------------------------ the status partition
 
 @M.check('status-partition')
